@@ -35,7 +35,7 @@ econf_err readConfigHistoryWithCallback(econf_file ***key_files,
 
   *size = 0;
 
-  if (delim == NULL)
+  if (delim == NULL || config_name == NULL)
     return ECONF_ERROR;
 
   if (config_name != NULL && strlen (config_name) != 0)
